@@ -4,11 +4,13 @@ package world
 
 import (
 	"fmt"
+	"strings"
 	"time"
 
 	"verif/clock"
 	"verif/ctl"
 	"verif/faketc"
+	"verif/minimysql"
 	"verif/vc"
 )
 
@@ -18,6 +20,7 @@ type World struct {
 	Marks *clock.Marks
 	TC    *faketc.TC
 	bins  map[bool]string
+	dbs   []*DB
 }
 
 func New(r *vc.Run) (*World, error) {
@@ -33,6 +36,9 @@ func New(r *vc.Run) (*World, error) {
 func (w *World) Close() {
 	if w.TC != nil {
 		w.TC.Close()
+	}
+	for _, d := range w.dbs {
+		d.S.Close()
 	}
 }
 
@@ -55,6 +61,7 @@ type DBSpec struct {
 	DSN     string `json:"dsn"`
 	MaxOpen int    `json:"max_open,omitempty"`
 	MaxIdle int    `json:"max_idle,omitempty"`
+	Class   string `json:"class,omitempty"`
 }
 
 // StartClient builds (once per variant) and launches a client child, initialises seata-go in it against this
@@ -83,4 +90,53 @@ func (w *World) StartClient(name string, race bool, init InitArg, env []string) 
 		return nil, fmt.Errorf("client %s never opened a session to the fake TC\n%s", name, ch.LogTail(3000))
 	}
 	return ch, nil
+}
+
+// ---- databases ----
+
+type DB struct {
+	Name string
+	E    *minimysql.Engine
+	S    *minimysql.Server
+}
+
+// NewDB starts a fake MySQL server sharing the world's logical clock.
+func (w *World) NewDB(name string) *DB {
+	e := minimysql.NewEngine()
+	e.Clock = w.Clock
+	s := minimysql.NewServer(e)
+	d := &DB{Name: name, E: e, S: s}
+	w.dbs = append(w.dbs, d)
+	return d
+}
+
+// DSN for the given login user (the user name is the default connection class).
+func (d *DB) DSN(user string, extra string) string {
+	q := "interpolateParams=true&parseTime=true&multiStatements=true"
+	if extra != "" {
+		q = extra
+	}
+	return fmt.Sprintf("%s:pw@tcp(%s)/vdb?%s", user, d.S.Addr(), q)
+}
+
+// ResourceID is what seata-go derives from the DSN (everything before '?').
+func (d *DB) ResourceID(user string) string {
+	dsn := d.DSN(user, "")
+	if i := strings.Index(dsn, "?"); i >= 0 {
+		return dsn[:i]
+	}
+	return dsn
+}
+
+// CreateUndoLog creates the AT undo_log table.
+func (d *DB) CreateUndoLog() {
+	d.E.CreateTable(&minimysql.Table{Name: "undo_log", Cols: []minimysql.Column{
+		{Name: "branch_id", T: minimysql.TInt, Bits: 64, ColType: "bigint(20)"},
+		{Name: "xid", T: minimysql.TChar, Len: 128, ColType: "varchar(128)"},
+		{Name: "context", T: minimysql.TChar, Len: 128, ColType: "varchar(128)"},
+		{Name: "rollback_info", T: minimysql.TBin, DataType: "longblob", ColType: "longblob"},
+		{Name: "log_status", T: minimysql.TInt, Bits: 32, ColType: "int(11)"},
+		{Name: "log_created", T: minimysql.TDateTime, Fsp: 6, ColType: "datetime(6)"},
+		{Name: "log_modified", T: minimysql.TDateTime, Fsp: 6, ColType: "datetime(6)"},
+	}, PK: []int{1, 0}})
 }
